@@ -66,7 +66,13 @@ fn verif_main() {
         .start_paused(true) // virtual time: see rig.rs (`wait`), and the probes below need no real waiting
         .build()
         .unwrap();
-    std::panic::set_hook(Box::new(|_| {}));
+    // only the first panic of a process is reported (stderr): see c08.rs
+    static FIRST_PANIC: std::sync::atomic::AtomicBool = std::sync::atomic::AtomicBool::new(true);
+    std::panic::set_hook(Box::new(|info| {
+        if FIRST_PANIC.swap(false, std::sync::atomic::Ordering::SeqCst) {
+            eprintln!("C07 harness: first panic of this process: {}", info);
+        }
+    }));
     sexp::run_lines(&inp, &out, |l| {
         std::panic::catch_unwind(std::panic::AssertUnwindSafe(|| run_line(&rt, l)))
             .unwrap_or_else(|_| "(panic)".into())
